@@ -231,6 +231,69 @@ fn c16_three_groups() {
     core::mem::forget((got, s));
 }
 
+/// Ten filters in one special group (all ten boolean kinds, payloads symbolic):
+/// the group is introduced by `\nand\10` (the count in decimal), contains exactly
+/// the ten `\key\value` pairs (any order) and the string ends with NUL.
+#[cfg(kani)]
+fn ten_in_group(nor: bool) {
+    let f: [bool; 10] = kani::any();
+    let kinds: [u8; 10] = [0, 2, 3, 4, 5, 11, 13, 14, 15, 16];
+    let mut s = SearchFilters::new();
+    let mut i = 0;
+    while i < 10 {
+        s = if nor { s.insert_nor(make_filter(kinds[i], f[i])) } else { s.insert_nand(make_filter(kinds[i], f[i])) };
+        i += 1;
+    }
+    let got = filters_to_bytes(&s);
+    let prefix: &[u8] = if nor { b"\\nor\\10\\" } else { b"\\nand\\10\\" };
+    assert!(got.len() == prefix.len() - 1 + 104 + 1);
+    let mut i = 0;
+    while i < prefix.len() {
+        assert!(got[i] == prefix[i]);
+        i += 1;
+    }
+    assert!(got[got.len() - 1] == 0);
+    // every expected pair occurs (keys are distinct, so once each given the total length)
+    let mut k = 0;
+    while k < 10 {
+        let mut want = Enc::new();
+        ref_filter(kinds[k], f[k], &mut want);
+        let w = &want.v;
+        let mut found = false;
+        let mut at = prefix.len() - 1;
+        while at + w.len() <= got.len() - 1 {
+            let mut eq = true;
+            let mut j = 0;
+            while j < w.len() {
+                if got[at + j] != w[j] {
+                    eq = false;
+                }
+                j += 1;
+            }
+            if eq {
+                found = true;
+            }
+            at += 1;
+        }
+        assert!(found);
+        core::mem::forget(want);
+        k += 1;
+    }
+    core::mem::forget((got, s));
+}
+
+#[cfg(kani)]
+#[kani::proof]
+#[kani::unwind(116)]
+#[kani::stub(alloc::fmt::format, stub_format)]
+fn c16_t_ten_filters_nand() { ten_in_group(false) }
+
+#[cfg(kani)]
+#[kani::proof]
+#[kani::unwind(116)]
+#[kani::stub(alloc::fmt::format, stub_format)]
+fn c16_t_ten_filters_nor() { ten_in_group(true) }
+
 /// construct_payload: '1', region byte, "ip:port", NUL, filter string — for
 /// every region (no filters: a single NUL).
 #[cfg(kani)]
@@ -309,6 +372,69 @@ fn c16_t_paging_two_pages() {
     assert!(world().n_sends == 2);
     assert!(sent_is(0, &master, b"1\x030.0.0.0:0\0\0"));
     assert!(sent_is(1, &master, b"1\x035.6.7.8:27015\0\0"));
+    core::mem::forget((r, m));
+}
+
+/// Three pages; the last entries of page 1 and page 2 are two servers on the
+/// same host (same IP, different port) - ordinary for a master-server list.
+/// Paging must go on: all four addresses, three requests, each follow-up seeded
+/// with the previous page's last address.
+#[cfg(kani)]
+#[kani::proof]
+#[kani::unwind(34)]
+#[kani::stub(alloc::fmt::format, stub_format)]
+fn c16_t_paging_same_host_last_entries() {
+    let master = SocketAddr::new(IpAddr::V4(Ipv4Addr::new(208, 64, 201, 194)), 27011);
+    let mut page1 = Enc::new();
+    page1.le32(0xFFFF_FFFF).u8(0x66).u8(0x0A);
+    page1.bytes(&[1, 2, 3, 4]).be16(27016).bytes(&[5, 6, 7, 8]).be16(27015);
+    let mut page2 = Enc::new();
+    page2.le32(0xFFFF_FFFF).u8(0x66).u8(0x0A);
+    page2.bytes(&[9, 9, 9, 9]).be16(2303).bytes(&[5, 6, 7, 8]).be16(27016);
+    let mut page3 = Enc::new();
+    page3.le32(0xFFFF_FFFF).u8(0x66).u8(0x0A).bytes(&[0, 0, 0, 0]).be16(0);
+    world().push_data(page1.v);
+    world().push_data(page2.v);
+    world().push_data(page3.v);
+    let m = ValveMasterServer::new(&master);
+    assert!(m.is_ok());
+    let mut m = m.unwrap();
+    let r = m.query(Region::Europe, None);
+    match &r {
+        Ok(list) => {
+            assert!(list.len() == 4);
+            assert!(list[1] == (IpAddr::V4(Ipv4Addr::new(5, 6, 7, 8)), 27015));
+            assert!(list[3] == (IpAddr::V4(Ipv4Addr::new(5, 6, 7, 8)), 27016));
+            kani::cover!(true, "three pages listed");
+        }
+        Err(_) => assert!(false),
+    }
+    assert!(world().n_sends == 3);
+    assert!(sent_is(1, &master, b"1\x035.6.7.8:27015\0\0"));
+    assert!(sent_is(2, &master, b"1\x035.6.7.8:27016\0\0"));
+    core::mem::forget((r, m));
+}
+
+/// A page whose last entry repeats the seed address exactly (same IP and port):
+/// the server makes no progress; the query stops instead of asking forever.
+#[cfg(kani)]
+#[kani::proof]
+#[kani::unwind(34)]
+#[kani::stub(alloc::fmt::format, stub_format)]
+fn c16_t_paging_no_progress_stops() {
+    let master = SocketAddr::new(IpAddr::V4(Ipv4Addr::new(208, 64, 201, 194)), 27011);
+    let mut page1 = Enc::new();
+    page1.le32(0xFFFF_FFFF).u8(0x66).u8(0x0A);
+    page1.bytes(&[5, 6, 7, 8]).be16(27015);
+    let mut page2 = Enc::new();
+    page2.le32(0xFFFF_FFFF).u8(0x66).u8(0x0A);
+    page2.bytes(&[5, 6, 7, 8]).be16(27015);
+    world().push_data(page1.v);
+    world().push_data(page2.v);
+    let mut m = ValveMasterServer::new(&master).unwrap();
+    let r = m.query(Region::Europe, None);
+    assert!(r.is_ok());
+    assert!(world().n_sends == 2);
     core::mem::forget((r, m));
 }
 
